@@ -19,6 +19,13 @@ from pyvc.speclib import (AND, OR, NOT, IMPLIES, IFF, ITE, EQ, IS_NONE, VAL, ISI
                           FILTER, lower, smt)
 from pyvc import speclib
 from .common import COMPOSITE, VersionK
+from pyvc import ext_expr as _ext  # exception objects carry _path / _line; Error.set_error_location_if_unknown is executed
+from pyvc.spec import REG as _REG
+
+if "pydsdl._error.Error" not in _REG.classes:
+    @class_spec("pydsdl._error.Error")
+    class _ErrorLocationSpec:
+        fields = dict(_path=Opt(Str), _line=Opt(Int))
 
 P = ["C09"]
 DSDLFILE = "pydsdl._dsdl.DSDLFile"
@@ -449,7 +456,25 @@ def _first(entries):
     return entries[0] if entries else None
 
 
-@contract(DSDLDEF + ".read", props=P)
+def EXC_PATH_KNOWN(exc):
+    """the escaping pydsdl Error names a file"""
+    if smt():
+        from pyvc.values import OptV, RecV
+
+        p = speclib.CTX.engine.lib.exc_attr(speclib.CTX, exc, "_path")
+        if p is None:
+            return False
+        if isinstance(p, OptV):
+            v = p.val
+            inner = True if isinstance(v, RecV) else (z3.Length(v) > 0 if isinstance(v, z3.ExprRef) else bool(v))
+            return AND(NOT(p.is_none), inner)
+        if isinstance(p, z3.ExprRef) and z3.is_string(p):
+            return z3.Length(p) > 0
+        return bool(p) if isinstance(p, (str,)) else True
+    return exc.path is not None
+
+
+@contract(DSDLDEF + ".read", props=P + ["C13"])
 class _Read:
     params = dict(lookup_definitions=SeqOf(ObjOf(READABLE)), definition_visitors=SeqOf(ObjOf(VISITOR)),
                   print_output_handler=HANDLER, allow_unregulated_fixed_port_id=Bool, strict=Bool)
@@ -516,7 +541,14 @@ class _Read:
     raises_post = {
         "BaseException": lambda s: {"cache-unchanged": SAME_OPT_OBJ(s.self._cached_type, s.old._cached_type),
                                     "identity-unchanged": _Read._frame(s)},
+        # C13-2 (the funnel): every pydsdl Error leaves `read` with a path attached - its own one if it had one (an error
+        # from a dependency keeps the dependency's path: Error.set_error_location_if_unknown), else this file's path
+        "Error": lambda s: {"path-attached": EXC_PATH_KNOWN(s.exc)},
     }
+
+    def pre(s):
+        # a pathlib.Path is always truthy; its model (a text) must therefore be non-empty
+        return {"file-path-is-a-path": NOT(EQ(s.self._file_path, ""))}
 
 
 def RESULT_IS(result, clause, otherwise):
